@@ -290,6 +290,10 @@ def check_dangling(chk, rule, prog, eff, cache, floor=4):
                 li = next((j for j, x in enumerate(evs) if x.kind == "load" and x.res == p), 0)
                 later = evs[li:]
                 cleared = any(x.kind == "store" and ptr_key(x.args[0]) == (ptr_key(X)[0], ptr_key(X)[1] + off) for x in later)
+                if not cleared:
+                    # ... or overwritten wholesale (the enclosing struct published from a working copy): the field's final value
+                    final = pa.st.load(P.mkptr(X, off), "i8*", None)
+                    cleared = final != p
                 owner_freed = any(x.kind == "call" and x.callee == "_cbor_free" and x is not e and
                                   isinstance(x.args[0], tuple) and (x.args[0] == X or ptr_key(x.args[0])[0] == ptr_key(X)[0]) for x in evs[i + 1:])
                 ok = cleared or owner_freed
